@@ -117,7 +117,7 @@ func getRig(t vh.TB) *rig {
 	if err != nil {
 		t.Fatalf("INFRA: cannot start bridge: %v", err)
 	}
-	r.down, err = vh.StartBridge(vh.FreePort())
+	r.down, err = vh.StartBridge(1) // target port 1 refuses connections for good (a port that is free now need not stay free)
 	if err != nil {
 		t.Fatalf("INFRA: cannot start the second bridge: %v", err)
 	}
